@@ -4,6 +4,7 @@ package main
 // at joins and modular calls; produces proof obligations.
 
 import (
+	"path/filepath"
 	"fmt"
 	"sync"
 	"go/ast"
@@ -37,6 +38,7 @@ type Obl struct {
 }
 
 type FnExec struct {
+	branchCovers bool
 	E        *Engine
 	tc       *TermCtx
 	top      *Contract
@@ -983,7 +985,22 @@ func (x *FnExec) execInstr(fr *Frame, in ssa.Instruction, st *State, g *Term) *T
 			}
 		}
 		return g
-	case *ssa.If, *ssa.Jump:
+	case *ssa.If:
+		// diagnostic (VERIF_BRANCH_COVERS=1): is each side of this branch of the function under verification
+		// reachable under the preconditions and all assumed callee contracts?  An unreachable side usually means
+		// an over-strong assumed contract (path-level vacuity), sometimes dead defensive code.
+		if x.branchCovers && fr.top {
+			c := fr.val(v.Cond).(*Term)
+			pos := x.E.prog.Fset.Position(v.Cond.Pos())
+			for k, gg := range []*Term{tc.And(g, c), tc.And(g, tc.Not(c))} {
+				side := "true"
+				if k == 1 {
+					side = "false"
+				}
+				x.obls = append(x.obls, &Obl{Name: fmt.Sprintf("%s#BRANCH[%s:%d:%s]", shortKey(x.top.Key), filepath.Base(pos.Filename), pos.Line, side), Kind: "BRANCH", Desc: "branch side reachable", Guard: gg, Goal: tc.True(), NAssume: len(x.assumes), NFacts: len(x.facts), Cover: true})
+			}
+		}
+	case *ssa.Jump:
 	case *ssa.Return:
 		var rv Value
 		if len(v.Results) == 1 {
